@@ -109,54 +109,121 @@ def dfs_ensures():
     ]
 
 
-def dfs_loop_inv():
+def on_path(path, v, ppos):
+    """v is one of the path's nodes -- through the ghost position map (exact given wf_ppos; no existential for the solver)"""
+    q = ppos.cnt(v)
+    return z3.And(0 <= q, q < path.n, path.at_node(q) == v)
+
+
+def wf_ppos(path, ppos):
+    return z3.ForAll([j], z3.Implies(z3.And(0 <= j, j < path.n), ppos.cnt(path.at_node(j)) == j), patterns=[path.at_node(j)])
+
+
+def dfs_outer_inv():
+    """invariant of `while path:` -- the DFS stack `path` is p_0 .. p_{m-1}, p_0 = source"""
     def grey2(L):
-        return lambda v: z3.Or(L.old.grey.has(v), v == L.old.source.t)
+        return lambda v: z3.Or(L.old.grey.has(v), on_path(L.cur.path, v, L.cur.ppos))
     c, o = (lambda L: L.cur), (lambda L: L.old)
+    g = lambda L: o(L).graph
+
+    def path_shape(L):
+        p = c(L).path
+        return z3.And(
+            p.n >= 0,
+            z3.Implies(p.n > 0, p.at_node(0) == o(L).source.t),
+            z3.Implies(p.n == 0, z3.And(c(L).stack.lo < o(L).stack.lo, c(L).stack.at(c(L).stack.lo) == o(L).source.t)),
+            # distinct nodes
+            z3.ForAll([i, j], z3.Implies(z3.And(0 <= i, i < j, j < p.n), p.at_node(i) != p.at_node(j)),
+                      patterns=[z3.MultiPattern(p.at_node(i), p.at_node(j))]),
+            # iterator positions; the child of p_j is the neighbour its iterator yielded last
+            z3.ForAll([j], z3.Implies(z3.And(0 <= j, j < p.n), z3.And(
+                0 <= p.at_ptr(j), p.at_ptr(j) <= g(L).n(p.at_node(j)),
+                z3.Implies(j < p.n - 1, z3.And(p.at_ptr(j) >= 1, g(L).at(p.at_node(j), p.at_ptr(j) - 1) == p.at_node(j + 1))))),
+                patterns=[p.at_node(j)]))
+
+    def consumed_visited(L):
+        p = c(L).path
+        return z3.ForAll([j, i], z3.Implies(z3.And(0 <= j, j < p.n, 0 <= i, i < p.at_ptr(j)),
+                                            c(L).visited.has(g(L).at(p.at_node(j), i))), patterns=[g(L).at(p.at_node(j), i)])
+
+    def chain(L):
+        p = c(L).path
+        return z3.And(
+            z3.ForAll([j], z3.Implies(z3.And(0 <= j, j < p.n), z3.And(g(L).R(o(L).source.t, p.at_node(j)), o(L).P.has(p.at_node(j)),
+                                                                      z3.Not(o(L).visited.has(p.at_node(j))))),
+                      patterns=[p.at_node(j)]),
+            z3.ForAll([i, j], z3.Implies(z3.And(0 <= i, i <= j, j < p.n), g(L).R(p.at_node(i), p.at_node(j))),
+                      patterns=[z3.MultiPattern(p.at_node(i), p.at_node(j))]))
     return [
+        ("path-shape", path_shape),
+        ("path-positions", lambda L: wf_ppos(c(L).path, c(L).ppos)),
+        ("consumed-neighbours-visited", consumed_visited),
+        ("path-is-a-chain-from-source", chain),
         ("old-part-kept", lambda L: old_part_kept(o(L).stack, o(L).pos, c(L).stack, c(L).pos)),
         ("positions", lambda L: wf_positions(c(L).stack, c(L).pos)),
-        ("visited=stack+grey+source", lambda L: visited_is(c(L).stack, c(L).pos, c(L).visited, grey2(L))),
-        ("grey+source-not-stacked", lambda L: z3.ForAll([x], z3.Implies(grey2(L)(x), z3.Not(in_stack(c(L).stack, c(L).pos, x))))),
-        ("visited-grows", lambda L: z3.ForAll([x], z3.Implies(o(L).visited.has(x), c(L).visited.has(x)),
-                                             patterns=[o(L).visited.has(x)])),
+        ("visited=stack+grey+path", lambda L: visited_is(c(L).stack, c(L).pos, c(L).visited, grey2(L))),
+        ("grey+path-not-stacked", lambda L: z3.ForAll([x], z3.Implies(grey2(L)(x), z3.Not(in_stack(c(L).stack, c(L).pos, x))))),
+        ("visited-grows", lambda L: z3.ForAll([x], z3.Implies(o(L).visited.has(x), c(L).visited.has(x)), patterns=[o(L).visited.has(x)])),
         ("new-were-unvisited", lambda L: z3.ForAll([i], z3.Implies(
-            z3.And(c(L).stack.lo <= i, i < o(L).stack.lo), z3.Not(o(L).visited.has(c(L).stack.at(i)))),
-            patterns=[c(L).stack.at(i)])),
-        ("closure", lambda L: seg_closed(o(L).graph, c(L).stack, c(L).visited, c(L).stack.lo, o(L).stack.lo)),
-        ("order", lambda L: seg_ordered(o(L).graph, c(L).stack, c(L).pos, c(L).stack.lo, o(L).stack.lo)),
+            z3.And(c(L).stack.lo <= i, i < o(L).stack.lo), z3.Not(o(L).visited.has(c(L).stack.at(i)))), patterns=[c(L).stack.at(i)])),
+        ("closure", lambda L: seg_closed(g(L), c(L).stack, c(L).visited, c(L).stack.lo, o(L).stack.lo)),
+        ("order", lambda L: seg_ordered(g(L), c(L).stack, c(L).pos, c(L).stack.lo, o(L).stack.lo)),
         ("soundness", lambda L: z3.ForAll([i], z3.Implies(
-            z3.And(c(L).stack.lo <= i, i < o(L).stack.lo), o(L).graph.R(o(L).source.t, c(L).stack.at(i))),
-            patterns=[c(L).stack.at(i)])),
-        ("done-neighbours-visited", lambda L: z3.ForAll([j], z3.Implies(
-            z3.And(0 <= j, j < L.k), c(L).visited.has(L.at(j))), patterns=[L.at(j)])),
+            z3.And(c(L).stack.lo <= i, i < o(L).stack.lo), g(L).R(o(L).source.t, c(L).stack.at(i))), patterns=[c(L).stack.at(i)])),
         ("new-in-P", lambda L: z3.ForAll([i], z3.Implies(
-            z3.And(c(L).stack.lo <= i, i < o(L).stack.lo), o(L).P.has(c(L).stack.at(i))),
-            patterns=[c(L).stack.at(i)])),
-        ("loop-index", lambda L: z3.And(0 <= L.k, L.k <= L.n)),
+            z3.And(c(L).stack.lo <= i, i < o(L).stack.lo), o(L).P.has(c(L).stack.at(i))), patterns=[c(L).stack.at(i)])),
     ]
 
 
-def _ghost_push(ns, st):
-    """ghost statement after `stack.appendleft(source)`: record the position"""
-    stack, pos = st.env["stack"], st.env["pos"]
-    st.env["pos"] = PyCount(z3.Store(pos.arr, ns.source.t, stack.lo))
+def dfs_inner_inv():
+    """invariant of `for neighbour in neighbours:` -- only the iterator position of the top pair moves while no unvisited
+    neighbour is found"""
+    def pinned(L):
+        p, p0 = L.cur.path, L.pre.path
+        top = p0.n - 1
+        return z3.And(p.n == p0.n, p.node == p0.node, p.ptr == z3.Store(p0.ptr, top, p0.at_ptr(top) + L.k),
+                      L.cur.visited.arr == L.pre.visited.arr, L.cur.stack.lo == L.pre.stack.lo, L.cur.stack.hi == L.pre.stack.hi,
+                      L.cur.stack.arr == L.pre.stack.arr, L.cur.pos.arr == L.pre.pos.arr, L.cur.node.t == L.pre.node.t,
+                      L.cur.ppos.arr == L.pre.ppos.arr)
 
+    def seen(L):
+        p0 = L.pre.path
+        top = p0.n - 1
+        return z3.ForAll([j], z3.Implies(z3.And(0 <= j, j < L.k), L.cur.visited.has(L.at(j))), patterns=[L.at(j)])
+    return [("only-the-top-iterator-advanced", pinned), ("yielded-neighbours-were-visited", seen),
+            ("index", lambda L: z3.And(0 <= L.k, L.k <= L.n))]
+
+
+def _ghost_push(ns, st):
+    """ghost statement after `stack.appendleft(node)`: record the position"""
+    stack, pos = st.env["stack"], st.env["pos"]
+    st.env["pos"] = PyCount(z3.Store(pos.arr, ns.node.t, stack.lo))
+
+
+def _ghost_path_push(ns, st):
+    """ghost statement after a push onto the DFS stack: record the pushed node's position"""
+    path, ppos = st.env["path"], st.env["ppos"]
+    st.env["ppos"] = PyCount(z3.Store(ppos.arr, path.at_node(path.n - 1), path.n - 1))
+
+
+from pyvc.dfs_engine import DfsEngine      # noqa: E402
 
 DFS = Contract(
     module=M, qualname="_dfs",
     params=dict(graph=TGraph, source=TV, stack=TDeque(TV), visited=TSet),
-    ghost=dict(grey=TSet, pos=TCount, P=TSet),
+    ghost=dict(grey=TSet, pos=TCount, P=TSet, ppos=TCount),
     requires=dfs_requires(),
     ensures=dfs_ensures(),
-    modifies=("stack", "visited", "pos"),
-    loops={0: LoopSpec(anchor="graph.get(source, [])", invariants=dfs_loop_inv(), modifies=("pos",))},
-    call_ghost={("_dfs", None): lambda st, pre: dict(
-        grey=PySet(z3.Store(pre.grey.arr, pre.source.t, z3.BoolVal(True))), pos=st.pos, P=pre.P)},
-    extra=dict(ghost_after={"stack.appendleft(source)": _ghost_push},
-               ghost_writeback={"pos": "pos"}),
+    modifies=("stack", "visited", "pos", "ppos"),
+    loops={0: LoopSpec(anchor="path", invariants=dfs_outer_inv(), modifies=("pos", "ppos")),
+           1: LoopSpec(anchor="neighbours", invariants=dfs_inner_inv(), modifies=("pos", "ppos"))},
+    extra=dict(engine=DfsEngine, ghost_writeback={"pos": "pos"},
+               ghost_after={"stack.appendleft(node)": _ghost_push,
+                            "path = [(source, iter(graph.get(source, [])))]": _ghost_path_push,
+                            "path.append((neighbour, iter(graph.get(neighbour, []))))": _ghost_path_push}),
     min_obligations=30,
-    note="recursion depth is not modelled (RecursionError is searched by the bounded run-time check)",
+    note="iterative depth-first search with an explicit stack of (node, neighbour-iterator) pairs; termination is not proved "
+         "(every iteration either consumes a neighbour or pops a node; long chains are exercised at run time)",
 )
 
 
